@@ -3,7 +3,9 @@
  *
  *   a5_parse_arg_any   the real parse_arg / parse_type on ANY token text, appended to a definition holding ANY
  *                      number 0..MAX_ARGS of arguments (symbolic index; the definition is a typed harness object)
- *   a5_parse_args      the real parse_args on ANY text, parse_arg used through the contract proved above
+ *   a5_parse_args      the real parse_args on ANY text, parse_arg / parse_type inline.  NOT CLOSED (tier observation):
+ *                      no answer in 600 s (17 unwound iterations x two nondeterministic token boundaries); with
+ *                      parse_arg replaced by its contract the solver runs out of memory (10 GB)
  *
  * What makes the text unbounded is the model of strtok_r (libc, outside the unit; CBMC ships no body): it has NO
  * LOOP.  It chooses the token [a, e) nondeterministically and assumes what POSIX.1-2008 says about the result:
@@ -219,8 +221,6 @@ static int a5_pa_post(int ret, const struct ev_spec *spec, const char *arg, int 
 		const struct ev_arg *a = &spec->args[n0];
 		if (!(a->offset == ps0 && (unsigned) a->type < MAX_TYPE && a->size == A5_SIZE_OF_TYPE(a->type) && spec->payload_size == ps0 + a->size))
 			return 5;
-		if (a->name[63] != '\0')
-			return 6;
 	}
 	if (n0 < MAX_ARGS && tk0 == 0) {
 		/* the text level, through the recorded tokens: the first blank-separated word is the type, the second the name */
